@@ -21,6 +21,15 @@ CLAIMS = {
  "C13": ("structural necessary conditions: delta side of both merge kernels (zero exactly when not new, delete iff IsZero, keep otherwise), State.Merge nil/delta decision and accumulation over all subsets, pass-through of the delta by Swarm.merge/OnGossip/OnGossipBroadcast, and the mesh.GossipData.Merge return-value contract checked for every implementation (State.Merge violates it: recorded known finding); relay termination is not decided",
          "trusts go/ssa; the mesh contract was read from the vendored weaveworks/mesh source",
          "static analysis: SSA guard cut-sets two-sided, return-value provenance, interface-contract rule"),
+ "C05": ("structural necessary conditions: identity-key rule on the per-peer counters, Swarm.merge drives the routing callbacks from the in-place delta (two-sided guards IsAdded/IsRemoved ∧ counter transition ∧ active), Notify symmetry and synchronous broadcast on every path, offline cleanup, local-only fan-out of forwarded messages, GossipData.Merge contract (known finding); quiescence and transport schedules are not decided",
+         "trusts go/ssa; callbacks are those assigned in broker.NewService",
+         "static analysis: SSA guard cut-sets two-sided, must-pass-through, identity-key rule, interface-contract rule"),
+ "C08": ("structural necessary conditions: the per-connection goroutine defers Close itself before reading and Close recovers in its own frame; every path through Close unsubscribes each counter, fires the will exactly once outside the loop, closes the socket; Close has a single (deferred) call site; identity-key rule on the per-connection counters; OnLastWill nil-safe, authorised, not extendable; observable cleanup counts are not decided",
+         "trusts go/ssa",
+         "static analysis: must-pass-through, who-may-call, SSA guard cut-sets, identity-key rule"),
+ "C14": ("structural necessary conditions: ban lookup cuts off decryption and success in Authorize; cache-coherence rule for the durable set (every store write is followed by invalidation of that key's cache entry on every path, propagated to callers up to the exported API); keyban handler two-sided guards and authorisation; on-disk location and close chain of the ban set; Notify ordering; expiry only for tombstones; fsync policy and cross-broker timing are not decided",
+         "trusts go/ssa; freecache/buntdb API contracts",
+         "static analysis: must-pass-through with call-graph propagation (coherence), SSA guard cut-sets two-sided, reachability"),
 }
 
 NOT_YET = "no sound structural rule implemented yet in this static-analysis framework (see DESIGN.md §4 for the clauses planned); behavioural clauses quantify over runtime values"
